@@ -11,7 +11,9 @@ import (
 	rb "verifharness/ref/bech32"
 )
 
-func init() { core.Register(core.Check{ID: "C05", Level: "exploration", Run: runC05}) }
+func init() {
+	core.Register(core.Check{ID: "C05", Level: "exploration", Run: func(c *core.Ctx) { runC05(c); reentrancyPass(c, "C05") }})
+}
 
 type c05case struct {
 	Hrp  string `json:"hrp"`
